@@ -37,6 +37,9 @@ func init() {
 		"go.vmstack.dest": goVmStackDest,
 		"go.vmtuple":      goVmTuple,
 		"go.vmcell.rt":    goVmCellRT,
+		"go.chunked":      goChunked,
+		"go.abi.wallet":   goAbiWallet,
+		"go.readsrc":      goReadSrc,
 	})})
 }
 
@@ -187,6 +190,7 @@ func genC03(g *h.G) {
 	genAbiBodies(g)
 	genNilPointers(g)
 	genDnsAndStack(g)
+	genRound6(g)
 	genTags(g)
 	genReal(g)
 }
